@@ -582,7 +582,7 @@ def shards(tier):
 def run_shard(spec, ctx):
     kind, k = spec
     if kind == "main":
-        run_given(cases("main"), body, ctx, ctx.pick(250, 900))
+        run_given(cases("main"), body, ctx, ctx.pick(250, 1500))
     elif kind == "diag":
         run_given(cases("diag"), body, ctx, ctx.pick(200, 600))
     elif kind == "real":
